@@ -225,3 +225,18 @@ Theorem C13_includes_any_order : forall splint quadS lnr isclose gs incs incs' L
   forall g, same_group (lib_get (K:=Rops) L g) (lib_get (K:=Rops) L' g).
 Proof. exact includes_perm_order_free. Qed.
 Print Assumptions C13_includes_any_order.
+
+(* non-vacuity of the any-order statements: three libraries giving three different groups merge in two different orders, and the
+   hypotheses of C13_library_any_order hold for them *)
+Example C13_any_order_example : forall splint quadS lnr isclose,
+  let c1 := Build_inc (K:=Rops) None None [(300, 1)] 298 None in
+  let c2 := Build_inc (K:=Rops) None None [(400, 2)] 298 None in
+  let c3 := Build_inc (K:=Rops) None None [(500, 3); (600, 4)] 298 None in
+  let x := [([1%N], c1)] in let y := [([2%N], c2)] in let z := [([3%N], c3); ([4%N], c1)] in
+  lupd_seq splint quadS lnr isclose [] [x; y; z] = Some [([1%N], c1); ([2%N], c2); ([3%N], c3); ([4%N], c1)]
+  /\ lupd_seq splint quadS lnr isclose [] [z; x; y] = Some [([3%N], c3); ([4%N], c1); ([1%N], c1); ([2%N], c2)]
+  /\ Permutation [x; y; z] [z; x; y].
+Proof.
+  intros. split; [reflexivity|split; [reflexivity|]].
+  apply Permutation_sym. change [z; x; y] with ([z] ++ [x; y]). change [x; y; z] with ([x; y] ++ [z]). apply Permutation_app_comm.
+Qed.
